@@ -138,6 +138,20 @@ func deepCopyN(v interface{}, depth int, copyOnPath map[uintptr]bool) interface{
 			c[i] = deepCopyN(e, depth+1, copyOnPath)
 		}
 		return c
+	case map[interface{}]interface{}:
+		c := make(map[interface{}]interface{}, len(x))
+		for k, e := range x {
+			c[k] = deepCopyN(e, depth+1, copyOnPath)
+		}
+		return c
+	case map[string]string:
+		c := make(map[string]string, len(x))
+		for k, e := range x {
+			c[k] = e
+		}
+		return c
+	case []string:
+		return append([]string{}, x...)
 	case mxj.Map:
 		// a nested value of Go type mxj.Map keeps its type
 		if x == nil {
@@ -279,4 +293,112 @@ func shareSome(m map[string]interface{}) map[string]interface{} {
 		walk(c[k], c)
 	}
 	return c
+}
+
+// retype returns a copy of v in which some nested containers have another Go type with the same
+// content: maps become mxj.Map, map[interface{}]interface{} or (all values strings) map[string]string,
+// lists of strings become []string.  Which ones is decided by h, so that a case line determines it.
+// kinds: which retypings are allowed ('M', 'Y', 'S', 'L').
+func retype(v interface{}, h uint64, kinds string, depth int) interface{} {
+	pick := func(n uint64) uint64 { h = h*6364136223846793005 + 1442695040888963407; return (h >> 33) % n }
+	switch x := v.(type) {
+	case map[string]interface{}:
+		c := make(map[string]interface{}, len(x))
+		allStr := len(x) > 0
+		for _, k := range sortedKeys(x) {
+			c[k] = retype(x[k], h+uint64(len(k))*31+uint64(depth), kinds, depth+1)
+			if _, ok := c[k].(string); !ok {
+				allStr = false
+			}
+		}
+		if depth == 0 || pick(3) != 0 {
+			return c
+		}
+		switch k := kinds[pick(uint64(len(kinds)))]; {
+		case k == 'M':
+			return mxj.Map(c)
+		case k == 'Y':
+			o := map[interface{}]interface{}{}
+			for kk, e := range c {
+				o[kk] = e
+			}
+			return o
+		case k == 'S' && allStr:
+			o := map[string]string{}
+			for kk, e := range c {
+				o[kk] = e.(string)
+			}
+			return o
+		}
+		return c
+	case []interface{}:
+		c := make([]interface{}, len(x))
+		allStr := len(x) > 0
+		for i, e := range x {
+			c[i] = retype(e, h+uint64(i)*17+uint64(depth), kinds, depth+1)
+			if _, ok := c[i].(string); !ok {
+				allStr = false
+			}
+		}
+		if allStr && strings.Contains(kinds, "L") && pick(3) == 0 {
+			o := make([]string, len(c))
+			for i, e := range c {
+				o[i] = e.(string)
+			}
+			return o
+		}
+		return c
+	}
+	return v
+}
+
+func hashStr(s string) uint64 {
+	var h uint64 = 1469598103934665603
+	for i := 0; i < len(s); i++ {
+		h = (h ^ uint64(s[i])) * 1099511628211
+	}
+	return h
+}
+
+// retypeBelowRoot: like retype, but the value itself, the values of its entries and the members of
+// lists at those two levels keep their plain map type (the root rules of the XML encoders look at
+// exactly those); lists of strings may become []string anywhere, deeper containers any allowed type.
+func retypeBelowRoot(v interface{}, h uint64, kinds string) interface{} {
+	var lvl func(x interface{}, d int) interface{}
+	lvl = func(x interface{}, d int) interface{} {
+		h = h*6364136223846793005 + 1442695040888963407
+		switch t := x.(type) {
+		case map[string]interface{}:
+			c := make(map[string]interface{}, len(t))
+			for _, k := range sortedKeys(t) {
+				if d < 2 {
+					c[k] = lvl(t[k], d+1)
+				} else {
+					c[k] = retype(t[k], h+uint64(len(k)), kinds, 2)
+				}
+			}
+			return c
+		case []interface{}:
+			allStr := len(t) > 0
+			for _, e := range t {
+				if _, ok := e.(string); !ok {
+					allStr = false
+				}
+			}
+			if allStr && strings.Contains(kinds, "L") && (h>>33)%2 == 0 {
+				o := make([]string, len(t))
+				for i, e := range t {
+					o[i] = e.(string)
+				}
+				return o
+			}
+			c := make([]interface{}, len(t))
+			for i, e := range t {
+				c[i] = lvl(e, d) // members of a list stand where the list stands
+			}
+			return c
+		}
+		return x
+	}
+	return lvl(v, 0)
 }
